@@ -38,7 +38,8 @@ SUMMARY = {
  "C10-A": ("Bucket::next_n ZST branch uses wrapping_add (moves by 0 bytes)", "retain/extract_if on a zero-sized element type removing an element not in bucket 0"),
  "C10-B": ("RawDrain::drop resets and moves the table back before dropping the remaining elements", "a drain dropped early over a table with > 1 group and elements with drop glue"),
 }
-src_root, dst_root = "/tmp/seeded-out", "/verif/seeded"
+src_root, dst_root = os.environ.get("SEED_SRC", "/tmp/seeded-out"), "/verif/seeded"
+RENAME = dict(x.split("=") for x in os.environ.get("SEED_RENAME", "").split(",") if x)
 log = open(sys.argv[1]).read() if len(sys.argv) > 1 else ""
 for line in log.splitlines():
     m = re.match(r"RESULT (C\d+) ([AB]) build_warn=(\d+) build_feat_err=(\d+) suite_pass/fail=(\d+)/(\d+) demo_with=(\S+) demo_without=(\S+)", line)
@@ -48,16 +49,16 @@ for line in log.splitlines():
     ok = m.group(4) == "0" and m.group(6) == "0" and not m.group(7).endswith("/0") and m.group(8).endswith("/0")
     if not ok:
         print("NOT CONFIRMED", line); continue
-    d = os.path.join(dst_root, "%s-%s" % (pid, v))
+    d = os.path.join(dst_root, "%s-%s" % (pid, RENAME.get(v, v)))
     os.makedirs(d, exist_ok=True)
     shutil.copy(os.path.join(src_root, pid, "patch_%s.diff" % v), os.path.join(d, "patch.diff"))
     shutil.copy(os.path.join(src_root, pid, "demo_%s.rs" % v), os.path.join(d, "demo.rs"))
     shutil.copy(os.path.join(src_root, pid, "NOTES.md"), os.path.join(d, "NOTES.md"))
-    what, needs = SUMMARY.get("%s-%s" % (pid, v), ("see NOTES.md", "see NOTES.md"))
+    what, needs = SUMMARY.get("%s-%s" % (pid, RENAME.get(v, v)), ("see NOTES.md", "see NOTES.md"))
     metap = os.path.join(d, "meta.json")
     meta = json.load(open(metap)) if os.path.exists(metap) else {}
     meta.update({
-        "property": pid, "variant": v, "origin": "independent sub-agent given only the property text and a scratch worktree",
+        "property": pid, "variant": RENAME.get(v, v), "origin": os.environ.get("SEED_ORIGIN", "independent sub-agent given only the property text and a scratch worktree"),
         "change": what, "needs_to_manifest": needs,
         "confirmed_by_me": {"how": "tools/confirm_seed.sh in a scratch worktree: patch applied -> cargo build (default and rayon,serde,rustc-internal-api), cargo test --workspace --offline, demo as tests/seeded_demo.rs; patch reverted -> demo again",
                             "existing_suite_pass_fail": "%s/%s" % (m.group(5), m.group(6)), "demo_with_change_pass_fail": m.group(7), "demo_without_change_pass_fail": m.group(8)},
